@@ -1,0 +1,14 @@
+//go:build verif
+
+package bigint
+
+// Contracts for the verif build tag (comment-only; see /verif/DESIGN.md).
+
+//@ prop C18
+
+//@ func getEffectiveSize
+//@ ensures[range] 0 <= result && result <= len(buf)
+//@ ensures[pad] forall(k, result, len(buf), buf[k] == ite(isNeg, 0xff, 0))
+//@ ensures[minimal] result == 0 || buf[result-1] != ite(isNeg, 0xff, 0)
+//@ loop 0 invariant 0 <= size && size <= len(buf) && forall(k, size, len(buf), buf[k] == b)
+//@ loop 0 decreases size
